@@ -561,12 +561,12 @@ theorem recsWf_mem {recs : List (List Nat)} (hw : recsWf recs) {rec : List Nat} 
     · exact hw.1
     · exact ih hw.2.2.2 hm
 
-theorem Cfg.wf.recs {cfg : Cfg} (hw : cfg.wf) (s : Store) : recsWf (cfg.recs s) := by
+theorem wf_recs {cfg : Cfg} (hw : cfg.wf) (s : Store) : recsWf (cfg.recs s) := by
   cases s
   · exact hw.repo
   · exact hw.dev
 
-theorem recWf.facts {rec : List Nat} (h : recWf rec) :
+theorem recWf_facts {rec : List Nat} (h : recWf rec) :
     5 ≤ rec.length ∧ rec.length ≤ 260 ∧ recId rec < 65536 ∧ rec.getD 4 0 + 5 = rec.length := by
   obtain ⟨h5, hlen, hb⟩ := h
   have hb4 : rec.getD 4 0 < 256 := by
@@ -587,50 +587,48 @@ theorem hdr_facts (rec : List Nat) :
 
 /-! ### get_sdr_data_helper returns the record or an error -/
 
+theorem getSdrDataWith_exact {cfg : Cfg} (hw : cfg.wf) (v : Variant) (hv : v.fallThrough = false) (s : Store)
+    (st : State) (id : Nat) (hid : id < 65536) (res : Nat) {st' : State} {nx : Nat} {d : List Nat}
+    (hh : getSdrDataWith K XK v (step cfg) s st id res = (st', .ok (nx, d))) :
+    lookup (cfg.recs s) id = some (d, nx) := by
+  unfold getSdrDataWith at hh
+  rcases hg : getChunk K v (step cfg) s st res id 0 XK.hdrLen with ⟨st1, o⟩
+  rw [hg] at hh
+  cases o with
+  | ok p =>
+    obtain ⟨nx1, d1⟩ := p
+    simp only at hh
+    have hs := getChunk_ok hw v hg
+    rw [Nat.mod_eq_of_lt hid] at hs
+    obtain ⟨rec, hl, _, _, _, hb⟩ := hs
+    have hwf := recWf_facts (recsWf_mem (wf_recs hw s) (lookup_mem hl))
+    have hd1 : d1 = rec.take 5 := by
+      rw [hb]; simp [effCount, XK, PyIpmi.Gen.Loops11.xconsts]
+    subst hd1
+    have hl5 : (rec.take 5).length = 5 := by simp; omega
+    rw [if_neg (by omega)] at hh
+    obtain ⟨hh1, hh2⟩ := hdr_facts rec
+    rw [hh1, hh2, hwf.2.2.2] at hh
+    have := dataLoop_exact hw v hv s res (recId rec) rec nx1 (lookup_self hl) hwf.2.2.1 hwf.2.1
+      20 20 st1 (rec.take 5) nx1 (rec.take 5) st' nx d (by simp) (by simp; omega)
+      ⟨0, 0, by omega, by omega, by simp; omega, by omega, by intro h; omega⟩ hh
+    obtain ⟨rfl, rfl⟩ := this
+    exact hl
+  | _ => simp [recast] at hh
+
 theorem getSdrData_exact {cfg : Cfg} (hw : cfg.wf) (v : Variant) (hv : v.fallThrough = false) (s : Store)
     (st : State) (id : Nat) (hid : id < 65536) (res? : Option Nat) {st' : State} {nx : Nat} {d : List Nat}
     (h : getSdrData K XK v (step cfg) s st id res? = (st', .ok (nx, d))) :
     lookup (cfg.recs s) id = some (d, nx) := by
   unfold getSdrData at h
-  -- the reservation
-  have key : ∀ st0 res, (match getChunk K v (step cfg) s st0 res id 0 XK.hdrLen with
-      | (st1, .ok (nx, d)) =>
-        if d.length < 5 then (st1, Outcome.decodingError)
-        else dataLoop XK v (fun st off len => getChunk K v (step cfg) s st res (hdrId d) off len)
-          (d.getD 4 0 + 5) XK.dataRetry XK.maxReqLen st1 d nx d
-      | (st1, e) => (st1, recast e)) = (st', Outcome.ok (nx, d)) → lookup (cfg.recs s) id = some (d, nx) := by
-    intro st0 res hh
-    rcases hg : getChunk K v (step cfg) s st0 res id 0 XK.hdrLen with ⟨st1, o⟩
-    rw [hg] at hh
-    cases o with
-    | ok p =>
-      obtain ⟨nx1, d1⟩ := p
-      simp only at hh
-      have hs := getChunk_ok hw v hg
-      rw [Nat.mod_eq_of_lt hid] at hs
-      obtain ⟨rec, hl, _, _, _, hb⟩ := hs
-      have hwf := (recsWf_mem (hw.recs s) (lookup_mem hl)).facts
-      have hd1 : d1 = rec.take 5 := by
-        rw [hb]; simp [effCount, XK, PyIpmi.Gen.Loops11.xconsts]
-      subst hd1
-      have hl5 : (rec.take 5).length = 5 := by simp; omega
-      rw [if_neg (by omega)] at hh
-      obtain ⟨hh1, hh2⟩ := hdr_facts rec
-      rw [hh1, hh2, hwf.2.2.2] at hh
-      have := dataLoop_exact hw v hv s res (recId rec) rec nx1 (lookup_self hl) hwf.2.2.1 hwf.2.1
-        20 20 st1 (rec.take 5) nx1 (rec.take 5) st' nx d (by simp) (by simp; omega)
-        ⟨0, 0, by omega, by omega, by simp; omega, by omega, by intro h; omega⟩ hh
-      obtain ⟨rfl, rfl⟩ := this
-      exact hl
-    | _ => simp [recast] at hh
   cases res? with
-  | some r => exact key st r h
+  | some r => exact getSdrDataWith_exact hw v hv s st id hid r h
   | none =>
     simp only at h
     rcases hr : reserve K (step cfg) s st with ⟨st0, o⟩
     rw [hr] at h
     cases o with
-    | ok r => exact key st0 r h
+    | ok r => exact getSdrDataWith_exact hw v hv s st0 id hid r h
     | _ => simp [recast] at h
 
 end PyIpmi.Model.SdrXfer
